@@ -84,16 +84,28 @@ def keep(res, d, suffix, rest):
   prop, slug, needs = rest[0], rest[1], " ".join(rest[2:])
   ok = (res.get("applies") and res.get("demo_on_repo") == 0 and res.get("demo_on_mutant") not in (0, None)
         and res.get("baseline_passed") == 171)
+  out = os.path.join(VERIF, "seeded", "%s-%s" % (prop, slug))
+  prior = os.path.exists(os.path.join(out, "meta.json"))
+  if not ok and prior and res.get("applies") and res.get("demo_on_repo") == 0 and res.get("demo_on_mutant"):
+    # re-evaluation of an already confirmed change (baseline not re-run): only append the check run
+    meta = json.load(open(os.path.join(out, "meta.json")))
+    runs = meta.setdefault("check_runs", [])
+    runs.append({"tier": res["tier"], "checks": res["checks"], "note": "re-evaluation after strengthening the check"})
+    meta["caught_by"] = sorted({c for r in runs for c, v in r["checks"].items() if v["exit"] == 1})
+    meta["not_caught_by"] = sorted({c for c, v in runs[-1]["checks"].items() if v["exit"] == 0})
+    with open(os.path.join(out, "meta.json"), "w") as f:
+      json.dump(meta, f, indent=1)
+    res["confirmed"] = True
+    return
   res["confirmed"] = bool(ok)
   if not ok:
     return
-  out = os.path.join(VERIF, "seeded", "%s-%s" % (prop, slug))
   os.makedirs(out, exist_ok=True)
-  shutil.copy(os.path.join(d, "patch%s.diff" % suffix), os.path.join(out, "patch.diff"))
-  shutil.copy(os.path.join(d, "demo%s.py" % suffix), os.path.join(out, "demo.py"))
-  notes = os.path.join(d, "notes%s.md" % suffix)
-  if os.path.exists(notes):
-    shutil.copy(notes, os.path.join(out, "notes.md"))
+  for src, dst in (("patch%s.diff" % suffix, "patch.diff"), ("demo%s.py" % suffix, "demo.py"),
+                   ("notes%s.md" % suffix, "notes.md")):
+    a, b = os.path.join(d, src), os.path.join(out, dst)
+    if os.path.exists(a) and os.path.abspath(a) != os.path.abspath(b):
+      shutil.copy(a, b)
   meta_p = os.path.join(out, "meta.json")
   meta = json.load(open(meta_p)) if os.path.exists(meta_p) else {}
   meta.update({
@@ -110,8 +122,7 @@ def keep(res, d, suffix, rest):
   runs = meta.setdefault("check_runs", [])
   runs.append({"tier": res["tier"], "checks": res["checks"]})
   meta["caught_by"] = sorted({c for r in runs for c, v in r["checks"].items() if v["exit"] == 1})
-  meta["not_caught_by"] = sorted({c for r in runs for c, v in r["checks"].items() if v["exit"] == 0}
-                                 - set(meta["caught_by"]))
+  meta["not_caught_by"] = sorted({c for c, v in runs[-1]["checks"].items() if v["exit"] == 0})
   with open(meta_p, "w") as f:
     json.dump(meta, f, indent=1)
 
